@@ -16,7 +16,43 @@ def cases(seed, tier):
         grid.append((cls, R, N, Dy, Dx))
     for (cls, R, N, Dy, Dx) in grid:
         out.append(case_set_y(PROPERTY, cls, R, N, Dy, Dx))
+    for (cls, Rc, Rx, Dy, Dx), t in ctor_grid(seed, "C10", tier):
+        N = 3
+        out.append(case_set_y(PROPERTY, cls, 1 if Rc == 1 else N, N, Dy, Dx, tag=t))
+    for (Ru, N, Dy, Dx, Du) in [(1, 3, 2, 3, 2), (3, 3, 1, 2, 1)] + ([(1, 1, 3, 1, 2), (2, 2, 2, 2, 3)] if tier != "quick" else []):
+        out.append(case_set_y_nn(Ru, N, Dy, Dx, Du))
     return seeded(out, seed)
+
+
+def case_set_y_nn(Ru, N, Dy, Dx, Du):
+    """NN-controlled conditional: set_y(y, u) is the likelihood x -> N(y; M(u) x + b(u), Sigma), with M(u), b(u) computed here
+    from the network output (one control for all observations, or one per observation)"""
+    label = f"set_y/nncontrol/Ru{Ru}/N{N}/Dy{Dy}Dx{Dx}Du{Du}"
+    def fn(m):
+        rng = gen.rng_path(m.seed, label)
+        fails = []
+        S = gen.pd_batch(rng, 1, Dy)
+        W = rng.standard_normal((Du, Dy * (Dx + 1))); c0 = rng.standard_normal(Dy * (Dx + 1))
+        nn = m.nncond(Dy, Dx, Du, S, W, c0)
+        u = rng.standard_normal((Ru, Du))
+        o = u @ W + c0
+        M = o[:, :Dy * Dx].reshape(Ru, Dy, Dx); b = o[:, Dy * Dx:]
+        y = gen.points(rng, N, Dy, 1.5); x = gen.points(rng, 3, Dx, 1.5)
+        params = dict(cls="nncontrol", R=Ru, N=N, Dy=Dy, Dx=Dx, Du=Du)
+        f = m.nn_call("set_y", nn, u, m.arr(y))
+        if m.regs.get(f) is None:
+            fails.append(failure(PROPERTY, "set_y:nncontrol", f"raised: {m.impl[-1][1:]}", params=params)); return fails
+        got = np.asarray(m.regs[m.evalln(f, m.arr(x))])
+        exp = np.zeros_like(got)
+        for n in range(N):
+            r = 0 if Ru == 1 else n
+            for t in range(3):
+                exp[n, t] = normal_logpdf(y[n:n + 1], M[r] @ x[t] + b[r], S[0])[0]
+        if rel_err(got, exp) > TOL:
+            fails.append(failure(PROPERTY, "set_y:nncontrol", "set_y(y, u)(x) != N(y; M(u)x+b(u), Sigma)", expected=exp.tolist(), got=got.tolist(),
+                                 deviation=(got - exp).reshape(-1).tolist(), params=params))
+        return fails
+    return Case(label, fn)
 
 
 def replay_set_y_offset(Dy, Dx):
